@@ -134,8 +134,11 @@ class TreeStorage(BaseStorage):
             leaf_reservoir_length (int): Size of the reservoir stored at each leaf node of each feature's incremental
                 decision tree. Defaults to 10.
             grace_period (int): Grace period of the underlying river Hoeffding Adaptive Trees. Defaults to 200.
-            seed (int, optional): Random seed of the underlying river Hoeffding Adaptive Trees. Defaults to None.
+            seed (int, optional): Random seed of the underlying river Hoeffding Adaptive Trees. Defaults to None, in
+                which case the seed is drawn from Python's global random generator (reproducible via `random.seed`).
         """
+        if seed is None:
+            seed = random.randrange(2 ** 32)
         self.feature_names = cat_feature_names + num_feature_names
         self.cat_feature_names = cat_feature_names
         self.num_feature_names = num_feature_names
